@@ -10,6 +10,9 @@ open Conc
 #print axioms C16_discipline_counterexamples
 #print axioms C16_race_free_protected
 #print axioms C16_no_race_outside_list
+#print axioms C16_discipline
+#print axioms C16_race_free
+#print axioms C16_no_race
 #print axioms C16_lock_order_table
 #print axioms C16_lock_order
 #print axioms C16_placement_partial
